@@ -30,6 +30,7 @@ import (
 	"google.golang.org/protobuf/types/dynamicpb"
 	"google.golang.org/protobuf/types/known/anypb"
 	"google.golang.org/protobuf/types/known/apipb"
+	"google.golang.org/protobuf/types/known/emptypb"
 	"google.golang.org/protobuf/types/known/structpb"
 	"google.golang.org/protobuf/types/known/typepb"
 	"google.golang.org/protobuf/types/known/wrapperspb"
@@ -61,6 +62,10 @@ type vfStep struct {
 	Wire string `json:"wireHex"` // standard encoding of the content (how the replay rebuilds it)
 	How  string `json:"how,omitempty"`
 	Dyn  bool   `json:"dynamic,omitempty"` // the object is a dynamicpb message of that type instead of the generated Go type
+	// Feed, when set, makes the step an INCOMING message instead of a Marshal call: the bytes are handed to the codec's
+	// Unmarshal with a fresh message of Type and whatever it answers is ignored (the property says nothing about damaged
+	// input); what is checked is that the Marshal calls that follow on the same codec are not disturbed by it.
+	Feed string `json:"incomingHex,omitempty"`
 }
 
 // Message types that declare field number 2047 themselves (built at run time, used through dynamicpb). The codec
@@ -625,6 +630,13 @@ func vfCheckErrors() string {
 	return ""
 }
 
+// vfOutputOf: what the codec is specified to produce for the content of a Marshal step.
+func vfOutputOf(st vfStep) []byte {
+	b, _ := hex.DecodeString(st.Wire)
+	crc := vfCrc32c(b)
+	return append([]byte{0xFD, 0x7F, byte(crc), byte(crc >> 8), byte(crc >> 16), byte(crc >> 24)}, b...)
+}
+
 func vfWireOf(m proto.Message) string {
 	std, _ := proto.MarshalOptions{Deterministic: true, AllowPartial: true}.Marshal(m)
 	return hex.EncodeToString(std)
@@ -762,6 +774,24 @@ func vfRunHistory(c *vfCodecCase) (string, map[string]int, int) {
 		if err != nil {
 			return "harness: " + err.Error(), labels, i
 		}
+		if s.Feed != "" {
+			data, err := hex.DecodeString(s.Feed)
+			if err != nil {
+				return "harness: " + err.Error(), labels, i
+			}
+			v, err := vfNewOf(s.Type, s.Dyn)
+			if err != nil {
+				return "harness: " + err.Error(), labels, i
+			}
+			func() {
+				defer func() { recover() }()
+				if codec.Unmarshal(data, v) != nil {
+					labels["incoming-message-refused-by-the-codec"]++
+				}
+			}()
+			labels["incoming-message-step"]++
+			continue
+		}
 		m := slots[s.Obj]
 		if m == nil || string(m.ProtoReflect().Descriptor().FullName()) != s.Type || isDyn[s.Obj] != s.Dyn {
 			if m, err = vfNewOf(s.Type, s.Dyn); err != nil {
@@ -802,11 +832,55 @@ func vfGenHistory(rt *rapid.T) *vfCodecCase {
 	if rapid.IntRange(0, 2).Draw(rt, "multi") == 0 {
 		n = rapid.IntRange(2, 6).Draw(rt, "steps")
 	}
-	for i := 0; i < n; i++ {
+	for i := 0; i < n && len(c.Steps) < 14; i++ {
 		slot := rapid.IntRange(0, 2).Draw(rt, "slot")
 		m := live[slot]
 		how := "fresh"
-		kind := rapid.IntRange(0, 5).Draw(rt, "kind")
+		kind := rapid.IntRange(0, 7).Draw(rt, "kind")
+		if kind >= 6 && len(c.Steps) == 0 {
+			kind = 0
+		}
+		if kind == 7 {
+			// an incoming message between two Marshal calls: the output of an earlier call, as it is or damaged
+			prev := c.Steps[rapid.IntRange(0, len(c.Steps)-1).Draw(rt, "feedOf")]
+			data := vfOutputOf(prev)
+			dmg := rapid.SampledFrom([]string{"intact", "checksum-bit", "payload-bit", "truncated", "garbage", "checksum-only"}).Draw(rt, "damage")
+			switch {
+			case dmg == "checksum-bit":
+				data[2+rapid.IntRange(0, 3).Draw(rt, "cb")] ^= 1 << rapid.IntRange(0, 7).Draw(rt, "bit")
+			case dmg == "payload-bit" && len(data) > 6:
+				data[6+rapid.IntRange(0, len(data)-7).Draw(rt, "pb")] ^= 1 << rapid.IntRange(0, 7).Draw(rt, "bit")
+			case dmg == "truncated" && len(data) > 1:
+				data = data[:rapid.IntRange(1, len(data)-1).Draw(rt, "cut")]
+			case dmg == "garbage":
+				data = rapid.SliceOfN(rapid.Byte(), 0, 40).Draw(rt, "garbage")
+			case dmg == "checksum-only":
+				data = append([]byte{0xFD, 0x7F}, rapid.SliceOfN(rapid.Byte(), 4, 4).Draw(rt, "crc")...)
+			}
+			if len(data) == 0 {
+				data = []byte{0}
+			}
+			c.Steps = append(c.Steps, vfStep{Obj: slot, Type: prev.Type, Dyn: prev.Dyn, How: "incoming-" + dmg, Feed: hex.EncodeToString(data)})
+			n++ // an incoming message is always followed by a Marshal call
+			if n > 12 {
+				n = 12
+			}
+			continue
+		}
+		if kind == 6 {
+			// a relayed message: the output of an earlier call parsed by a plain parser into a type none of whose fields it
+			// sets (everything, the checksum field first, stays in the unknown fields) and sent on through the codec
+			prev := c.Steps[rapid.IntRange(0, len(c.Steps)-1).Draw(rt, "relayOf")]
+			if prev.Feed == "" {
+				r := &emptypb.Empty{}
+				if proto.Unmarshal(vfOutputOf(prev), r) == nil {
+					live[slot], dyn[slot] = r, false
+					c.Steps = append(c.Steps, vfStep{Obj: slot, Type: "google.protobuf.Empty", Wire: vfWireOf(r), How: "relayed-output-of-an-earlier-call"})
+					continue
+				}
+			}
+			kind = 0
+		}
 		switch {
 		case m == nil || kind == 0:
 			if rapid.IntRange(0, 11).Draw(rt, "own2047") == 0 {
